@@ -62,6 +62,7 @@ def sub_scalar(cls: str):
         c.returns(cls)
         upd = {} if cls == "NoneSchema" else {"value": v}
         c.ensures("registry", lambda r, post: S.registry_is(ct, cls, r, Sx, upd), ("C04", "C05", "C12"))
+        c.ensures("unfold", lambda r, post: S.unfold_defs(ct, cls, r), ("C04",))
         c.ensures("path-frame", lambda r, post: V.path_frame(post), ("C07",))
         c.meta = {"cls": cls}
     return body
@@ -138,3 +139,109 @@ def _c12_scalars(lc):
         same = z3.And(*[S.prop(R2, n) == S.prop(R, n) for n in S.PROP_NAMES[cls]])
         lc.oblige(f"{cls}:idempotent", hyp + _updated_view(ct, cls, R2, R, v), same, inputs, {"cls": cls},
                   text="(S % v) % v equals S % v")
+
+
+# ----------------------------------------------------------------------------- from_native (C14)
+denotes = z3.Function("denotes", Obj, Obj, M.B)
+"""denotes(x, w): w is `the same plain value` as x -- same kind, content, length, key set and members,
+leaving aside bool/int identification (True == 1) and the documented float tolerance (C14)."""
+
+
+def plain(ct, x: Any) -> Any:
+    """kinds from_native accepts at this level (members are checked recursively by the code)"""
+    is_uuid4 = z3.And(M.isinstance_f(ct, x, "UUID"), M.py_eq(M.attr("version")(x), M.mk_int(4)))
+    return z3.Or(M.is_NoneV(x), M.is_BoolV(x), M.is_IntV(x), M.is_floatk(x), M.is_StrV(x), M.is_BytesV(x),
+                 M.isinstance_f(ct, x, "list"), M.isinstance_f(ct, x, "dict"), is_uuid4,
+                 M.isinstance_f(ct, x, "date"))
+
+
+def denotes_def(ct, x: Any, w: Any) -> Any:
+    j = z3.Int("dj")
+    k = z3.Const("dk2", Obj)
+    is_uuid4 = z3.And(M.isinstance_f(ct, x, "UUID"), M.py_eq(M.attr("version")(x), M.mk_int(4)))
+    return z3.If(M.is_NoneV(x), M.is_NoneV(w),
+           z3.If(M.is_BoolV(x), z3.And(M.is_BoolV(w), M.py_eq(w, x)),
+           z3.If(M.is_IntV(x), z3.And(M.is_intlike(w), M.py_eq(w, x)),
+           z3.If(M.is_floatk(x), z3.And(M.is_floatk(w), M.isclose_f(w, x)),
+           z3.If(M.is_StrV(x), z3.And(M.is_StrV(w), M.py_eq(w, x)),
+           z3.If(M.isinstance_f(ct, x, "list"),
+                 z3.And(M.isinstance_f(ct, w, "list"), M.llen(w) == M.llen(x),
+                        z3.ForAll([j], z3.Implies(z3.And(0 <= j, j < M.llen(x)), denotes(M.lat(x, j), M.lat(w, j))),
+                                  patterns=[M.lat(x, j)])),
+           z3.If(M.isinstance_f(ct, x, "dict"),
+                 z3.And(M.isinstance_f(ct, w, "dict"),
+                        z3.ForAll([k], M.has(w, k) == M.has(x, k), patterns=[M.has(w, k)]),
+                        z3.ForAll([k], z3.Implies(M.has(x, k), denotes(M.dget(x, k), M.dget(w, k))),
+                                  patterns=[M.has(x, k)])),
+           z3.If(M.is_BytesV(x), z3.And(M.is_BytesV(w), M.py_eq(w, x)),
+           z3.If(is_uuid4, z3.And(M.isinstance_f(ct, w, "UUID"), M.py_eq(M.attr("version")(w), M.mk_int(4)),
+                                  M.py_eq(w, x)),
+           z3.If(M.isinstance_f(ct, x, "datetime"), z3.And(M.isinstance_f(ct, w, "datetime"), M.py_eq(w, x)),
+           z3.If(M.isinstance_f(ct, x, "date"), z3.And(M.isinstance_f(ct, w, "date"), M.py_eq(w, x)),
+                 False)))))))))))
+
+
+plain_keys = z3.Function("plain_keys", Obj, M.B)
+"""plain_keys(x): every dict inside x (at any depth) has only plain keys -- no `...`, no optional(...).
+This is the domain of C14 (`plain value`); outside it from_native may leak DeclarationError or build
+optional keys (recorded in DESIGN, not claimed)."""
+
+
+def plain_keys_def(ct, x: Any) -> Any:
+    from .declaration import plain_key
+    j = z3.Int("pj")
+    k = z3.Const("pk", Obj)
+    return z3.If(M.isinstance_f(ct, x, "list"),
+                 z3.ForAll([j], z3.Implies(z3.And(0 <= j, j < M.llen(x)), plain_keys(M.lat(x, j))),
+                           patterns=[M.lat(x, j)]),
+           z3.If(M.isinstance_f(ct, x, "dict"),
+                 z3.ForAll([k], z3.Implies(M.has(x, k), z3.And(plain_key(ct, k), plain_keys(M.dget(x, k)))),
+                           patterns=[M.has(x, k)]),
+                 True))
+
+
+def _denotes_axioms(ct) -> List[Any]:
+    x, w = z3.Consts("dnx dnw", Obj)
+    return [z3.ForAll([x, w], denotes(x, w) == denotes_def(ct, x, w), patterns=[denotes(x, w)]),
+            z3.ForAll([x], plain_keys(x) == plain_keys_def(ct, x), patterns=[plain_keys(x)])]
+
+
+from pyvc.contracts import REG as _REG  # noqa: E402
+_REG.axiom_fns.append(_denotes_axioms)
+
+
+@contract(FN, "from_native", props=("C14", "C04", "C12", "C07"), group="substitutor")
+def _from_native(c):
+    ct = c.ct
+    x = c.sym("value")
+    c.raises("ValueError", "DeclarationError", props=("C14", "C12"))
+    c.returns(None)
+    w = z3.Const("fw", Obj)
+    c.ensures("is-schema", lambda r, post: z3.And(S.is_schema(ct, r), S.wf(r), S.reach(r)), ("C14", "C04"))
+    c.ensures("denotes", lambda r, post: z3.Implies(plain_keys(x), z3.ForAll(
+        [w], S.conforms(r, w) == denotes(x, w), patterns=[S.conforms(r, w)])), ("C14",))
+    c.ensures("plain", lambda r, post: plain(ct, x), ("C14",))
+    c.ensures_exc("DeclarationError", "only-outside-the-plain-domain",
+                  lambda e, post: z3.Not(plain_keys(x)), ("C14", "C12"))
+    c.meta = {"fn": "from_native"}
+
+
+@lemma("C14.denotes", props=("C14",))
+def _c14(lc):
+    """Over the contract of from_native (conforms(from_native(x), w) <=> denotes(x, w)) and the
+    definition of denotes: from_native(x) accepts x itself (reflexivity, by structural induction: the
+    members' reflexivity is the induction hypothesis), hence -- with the generator contract
+    conforms(R, fake(R)) -- generates a value that denotes x."""
+    ct = lc.ct
+    x = z3.Const("x", Obj)
+    j = z3.Int("j")
+    k = z3.Const("k", Obj)
+    ih_list = z3.ForAll([j], z3.Implies(z3.And(0 <= j, j < M.llen(x)), denotes(M.lat(x, j), M.lat(x, j))),
+                        patterns=[M.lat(x, j)])
+    ih_dict = z3.ForAll([k], z3.Implies(M.has(x, k), denotes(M.dget(x, k), M.dget(x, k))), patterns=[M.has(x, k)])
+    hyp = [plain(ct, x), z3.Implies(M.isinstance_f(ct, x, "list"), ih_list),
+           z3.Implies(M.isinstance_f(ct, x, "dict"), ih_dict)] + _denotes_axioms(ct)
+    if "C14-nan" in ACTIVE():
+        hyp.append(z3.Not(M.is_FNanV(x)))
+    lc.oblige("reflexive", hyp, denotes(x, x), {"value": x}, {},
+              text="from_native(x) accepts x (given it accepts the members of x)")
